@@ -156,7 +156,23 @@ def run_unit(unit, extra_roots=None, variant=None, rlimit=None, seed=None, tag="
         fn, repo_loc, clause = None, None, None
         for (f, ln, col) in b["locs"]:
             if 1 <= ln <= len(lines) and clause is None:
-                clause = lines[ln - 1].strip()
+                # the whole clause: from the reported line until brackets balance and the clause ends
+                acc, depth, k = [], 0, ln - 1
+                while k < len(lines) and len(acc) < 14:
+                    t = lines[k].strip()
+                    acc.append(t)
+                    depth += sum(t.count(c) for c in "([{") - sum(t.count(c) for c in ")]}")
+                    if depth <= 0 and (t.endswith(",") or t.endswith(";") or t.endswith("{") or t.endswith("}") or t.endswith(")")):
+                        break
+                    k += 1
+                clause = " ".join(acc)
+                # clause-level property tag: a `// [props: Cxx Cyy]` comment directly above the clause
+                k = ln - 2
+                while k >= 0 and lines[k].strip().startswith("//"):
+                    mt = re.search(r"\[props:\s*([^\]]+)\]", lines[k])
+                    if mt:
+                        b["clause_props"] = mt.group(1).split(); break
+                    k -= 1
         for (f, ln, col) in b["locs"]:
             for fd in m["functions"]:
                 if fd["gen_lines"][0] <= ln <= fd["gen_lines"][1]:
@@ -175,7 +191,7 @@ def run_unit(unit, extra_roots=None, variant=None, rlimit=None, seed=None, tag="
                         fn = "proof:" + mm.group(1); break
                     k -= 1
                 if fn: break
-        fails.append({"fn": fn, "kind": kind, "msg": b["msg"], "clause": clause, "repo": repo_loc, "text": "\n".join(b["text"][:40])})
+        fails.append({"fn": fn, "kind": kind, "msg": b["msg"], "clause": clause, "repo": repo_loc, "text": "\n".join(b["text"][:40]), "clause_props": b.get("clause_props")})
     res["fails"], res["hard"] = fails, hard
     if any(p in err for p in ("Resource limit (rlimit) exceeded",)) or any("rlimit" in b["msg"].lower() for b in hard):
         res.update(status="undecided", reason="rlimit exceeded"); return res
@@ -299,6 +315,7 @@ def main():
     os.makedirs(EVID, exist_ok=True); os.makedirs(REPLAY, exist_ok=True)
     t0 = time.time()
     undecided, violations, known_hits = [], [], []
+    notes = []
     functions, trusted, samples, cmds = [], set(), [], []
     obligations = discharged = 0
     bounded = []
@@ -337,7 +354,10 @@ def main():
         for f in r["fails"]:
             # does this failure concern this property?
             ps = tplp.get(f["fn"], serves) if f["fn"] and not f["fn"].startswith("proof:") else serves
-            if pid not in ps:
+            bare = (f["fn"] or "").split("::")[-1].strip().replace("proof:", "")
+            if pid not in ps and bare not in cfg.get("dep_fns", []):
+                continue
+            if f.get("clause_props") and pid not in f["clause_props"]:
                 continue
             failed_fns.add(f["fn"])
             k = match_known(known, pid, f)
@@ -345,8 +365,13 @@ def main():
                 known_hits.append((k, f))
             else:
                 violations.append(("verus", unit, f))
-        # discharged = verified units, minus nothing (errors are separate units)
-        discharged += r.get("verified", 0)
+        # discharged = verified proof units + units whose only failing clauses belong to other properties
+        # (Verus checks every clause separately; --multiple-errors reports each failing one)
+        all_failed = set(f["fn"] for f in r["fails"])
+        other_only = [x for x in all_failed if x not in failed_fns]
+        discharged += r.get("verified", 0) + min(len(other_only), r.get("errors", 0))
+        if other_only:
+            notes.append(f"unit {unit}: {other_only} have failing clauses that are attributed to other properties (see their evidence); the clauses serving {pid} are discharged")
         for fd in r["map"]["functions"]:
             nm = fd["name"]
             b = None
@@ -492,6 +517,7 @@ def main():
         "samples": samples or [{"note": "no samples"}],
         "explanation": cfg.get("explanation", ""),
         "undecided": undecided,
+        "notes": notes,
         "known_findings_hit": [k["id"] for (k, f) in known_hits],
         "cached_verus_results": [u["unit"] for u in unit_results if u.get("cached")],
     }
